@@ -31,17 +31,20 @@ def rand_base(rng):
     b = {"openapi": rng.choice(["3.0.0", "3.0.1", "3.0.3"]),
          "info": {"title": "T%d" % rng.randrange(100), "version": "%d.0" % rng.randrange(9)}}
     if rng.random() < 0.5:
-        b["info"]["description"] = "desc"
+        b["info"]["description"] = rng.choice(["desc", " desc ", "desc\n", "Désc/", ""])
     if rng.random() < 0.3:
         b["info"]["license"] = {"name": "MIT"}
     if rng.random() < 0.6:
-        b["servers"] = [{"url": "https://api%d.example.com" % i} for i in range(rng.randint(1, 2))]
+        # values must be carried over verbatim: trailing slashes, blanks, case, non-ASCII
+        b["servers"] = [{"url": rng.choice(["https://api%d.example.com", "https://api%d.example.com/", "https://api%d.example.com/v1/",
+                                            "/base%d/", "//cdn%d.example.com//", "HTTPS://API%d.Example.COM/V1", " https://api%d.example.com/é "]) % i}
+                        for i in range(rng.randint(1, 2))]
     if rng.random() < 0.5:
         b["tags"] = [{"name": "t%d" % i, "description": "tag"} for i in range(rng.randint(1, 3))]
     if rng.random() < 0.4:
         b["security"] = [{"key": []}]
     if rng.random() < 0.3:
-        b["externalDocs"] = {"url": "https://docs.example.com"}
+        b["externalDocs"] = {"url": rng.choice(["https://docs.example.com", "https://docs.example.com/", "https://docs.example.com/a/../b/"])}
     if rng.random() < 0.3:
         b["x-ext"] = {"a": [1, 2]}
     if rng.random() < 0.6:
@@ -80,7 +83,8 @@ FULL_BASE = {
     "info": {"title": "Full", "version": "9.9", "description": "every field", "termsOfService": "https://example.com/tos",
              "contact": {"name": "N", "url": "https://example.com", "email": "a@example.com"},
              "license": {"name": "MIT", "url": "https://example.com/mit"}, "x-info-ext": 1},
-    "servers": [{"url": "https://{env}.example.com", "description": "s", "variables": {"env": {"default": "prod", "enum": ["prod", "dev"]}}}],
+    "servers": [{"url": "https://{env}.example.com", "description": "s", "variables": {"env": {"default": "prod", "enum": ["prod", "dev"]}}},
+                {"url": "https://api.example.com/v1/", "description": " trailing slash and blanks "}],
     "security": [{"key": []}, {"oauth": ["read"]}],
     "tags": [{"name": "t0", "description": "tag", "externalDocs": {"url": "https://docs.example.com/t0"}}],
     "externalDocs": {"url": "https://docs.example.com", "description": "docs"},
